@@ -301,6 +301,11 @@ get_async = Contract(
         ("C03-nothing-leaked", 'forall(lambda k: implies(k in state["cache"].keys(), k in leaves(old(result))), Key)'),
     ],
     raises=[("ValueError", "True", "bad-graph"), ("TaskError", "True", "task-failed")],
+    raises_post={"TaskError": [
+        ("C04-started-tasks-are-exactly-running-or-finished", 'SUB == state["running"] | state["finished"]'),
+        ("C04-no-dependent-of-an-unfinished-task-ever-started", 'forall(lambda k, d: implies((k in state["running"] or k in state["finished"]) and d in state["dependencies"][k], d in state["finished"] or isdata(d)), Key, Key)'),
+        ("C04-not-marked-succeeded", "not succeeded"),
+    ]},
     loops={
         0: dict(invariant=[]),  # start callbacks
         1: dict(invariant=[]),  # start_state callbacks
@@ -320,6 +325,7 @@ get_async = Contract(
     },
     ghost=[
         ("before", "state = {}", "IF = EMPTY\nSUB = EMPTY\nstate = STATE0"),
+        ("before", "if finish:", 'assert_(exiting_by_exception == (not succeeded), "C04-finish-callbacks-get-the-failure-flag")'),
         ("before", "for key, res_info, failed in", 'if len(state["ready"]) == 0 and state["running"] == EMPTY:\n    lemma_no_deadlock(state, pick(state["waiting"].keys()))'),
     ],
     drop=["state = {}"],
